@@ -251,6 +251,19 @@ def gen_pairs(ctx, rng, count, ref=None):
             defaults = {"timeShiftBufferDepth": int(opts.pop("depth"))}
             if opts.get("mup") not in (None, "-1"):
                 defaults["minimumUpdatePeriod"] = int(opts.pop("mup"))
+        if i % 16 == 9:
+            # an option spelled `none` that overrides a non-empty default – of the server (acodec: mp4a) or of the
+            # stream (minimumUpdatePeriod) – must travel on through the PatchLocation like any other value
+            man = "hand_made.mpd"
+            opts["patch"] = "1"
+            if (i // 16) % 2 == 0:
+                stream = "bbb"
+                opts["acodec"] = "none"
+            else:
+                defaults = dict(defaults or {}, minimumUpdatePeriod=4)
+                opts["mup"] = "none"
+                delta = datetime.timedelta(seconds=rng.choice([21, 9.5, 2]))
+            kind = "none-override"
         q = "&".join(f"{k}={v}" for k, v in opts.items() if not (k == "start" and v == "year" and i % 2 == 0))
         # (`start=year` is the server default: every other such case leaves it to the default)
         out.append((stream, f"/dash/live/{stream}/{man}?{q}", t1, t1 + delta, kind, opts, defaults))
